@@ -193,7 +193,7 @@ def run_wsgi(case, head):
     _, _, rng, ifr, data, cs, etag, lm, ctype, disp, boundary, name = case[:12]
     path = file_for(data)
     st = os.stat(path)
-    resp = W.FileResponse(path, content_type=ctype, download_name=name or None, chunk_size=cs, stat_result=st)
+    resp = W.FileResponse(path, content_type=ctype, download_name=name or None, chunk_size=cs, stat_result=st if (len(data) + cs) % 2 else None)   # None: the constructor stats the file itself
     for phead, prng, pifr in prelude(case):
         # a FileResponse object may serve as an application: it has answered other requests before this one
         penv = util.wsgi_environ("HEAD" if phead else "GET")
@@ -222,7 +222,7 @@ def run_asgi(case, head, zc):
     _, _, rng, ifr, data, cs, etag, lm, ctype, disp, boundary, name = case[:12]
     path = file_for(data)
     st = os.stat(path)
-    resp = A.FileResponse(path, content_type=ctype, download_name=name or None, chunk_size=cs, stat_result=st)
+    resp = A.FileResponse(path, content_type=ctype, download_name=name or None, chunk_size=cs, stat_result=st if (len(data) + cs) % 2 else None)   # None: the constructor stats the file itself
     for phead, prng, pifr in prelude(case):
         phs = [(b"range", prng[0].encode("latin-1"))] if prng else []
         if pifr:
